@@ -296,6 +296,7 @@ func runCmsizeCase(c cmsizeCase) *fail {
 	defer close(stop)
 	var mu sync.Mutex
 	var bad *fail
+	nx := 0
 	go fk.Serve(stop, func(req *refcodec.Msg, raw []byte) []*refcodec.Msg {
 		if req == nil {
 			return nil
@@ -313,7 +314,15 @@ func runCmsizeCase(c cmsizeCase) *fail {
 		}
 		mu.Unlock()
 		if req.Type == refcodec.Txattrwalk {
-			return []*refcodec.Msg{refcodec.New(refcodec.Rxattrwalk, req.Tag, "size", uint64(req.U("newfid")%7)*uint64(c.OfferMsize)/3)}
+			// attribute sizes on both sides of what one reply can carry (the temporary
+			// fid is always the same number, so the size goes by the request's ordinal)
+			o := uint64(c.OfferMsize)
+			sizes := []uint64{2*o + 5, o - 11, o, o / 3, 5 * o, o - 10, 0}
+			mu.Lock()
+			sz := sizes[nx%len(sizes)]
+			nx++
+			mu.Unlock()
+			return []*refcodec.Msg{refcodec.New(refcodec.Rxattrwalk, req.Tag, "size", sz)}
 		}
 		return []*refcodec.Msg{peers.GenericReply(req, int(c.OfferMsize)-11)}
 	})
